@@ -273,8 +273,6 @@ func (ot *objectTree) AddContentWithValidator(ctx context.Context, content Signa
 	objChange.OrderId = lexId.Next(ot.tree.attached[ot.tree.lastIteratedHeadId].OrderId)
 	if content.IsSnapshot {
 		objChange.SnapshotCounter = ot.tree.root.SnapshotCounter + 1
-		// clearing tree, because we already saved everything in the last snapshot
-		ot.tree = &Tree{}
 	}
 	storageChange := StorageChange{
 		RawChange:       rawChange.RawChange,
@@ -291,6 +289,10 @@ func (ot *objectTree) AddContentWithValidator(ctx context.Context, content Signa
 			return
 		}
 	}
+	if content.IsSnapshot {
+		// clearing tree, because we already saved everything in the last snapshot
+		ot.tree = &Tree{}
+	}
 	err = ot.tree.AddMergedHead(objChange)
 	if err != nil {
 		panic(err)
@@ -298,6 +300,12 @@ func (ot *objectTree) AddContentWithValidator(ctx context.Context, content Signa
 	added := []StorageChange{storageChange}
 	err = ot.storage.AddAll(ctx, added, ot.Heads(), ot.tree.root.Id)
 	if err != nil {
+		// the change is already attached in memory (and a snapshot has replaced the tree),
+		// but it was not persisted: return to the stored state like the remote add path does
+		_, rebuildErr := ot.rebuildFromStorage(nil, nil, nil)
+		if rebuildErr != nil {
+			log.Error("failed to rebuild after adding to storage", zap.Strings("heads", ot.Heads()), zap.Error(rebuildErr))
+		}
 		return
 	}
 
